@@ -74,20 +74,50 @@ func verifHarness_C15_interceptor() {
 
 	// the call
 	isAdmin := verifChoose("service", 2) == 0
-	var method, full string
+	var method string
 	if isAdmin {
 		method = admin[verifChoose("admin-method", len(admin))]
-		full = api.AdminServicePrefix + method
 	} else {
 		method = wf[verifChoose("workflow-method", len(wf))]
-		full = api.WorkflowServicePrefix + method
 	}
 	bypass := verifNondetBool("bypass-header")
+	streaming := verifChoose("kind", 2) == 1
+
+	// an earlier call on the same interceptor must not change the decision (no per-method state):
+	// none / the same-named method of the other service / the same call / a fixed admin method
+	switch verifChoose("prior-call", 4) {
+	case 1:
+		other := admin
+		if isAdmin {
+			other = wf
+		}
+		twin := false
+		for _, m := range other {
+			if m == method {
+				twin = true
+			}
+		}
+		verifAssume(twin)
+		verifReach("same-named-method-of-the-other-service-called-first")
+		c15Call(ic, inList, emptyList, !isAdmin, method, false, bypass)
+	case 2:
+		c15Call(ic, inList, emptyList, isAdmin, method, streaming, bypass)
+	case 3:
+		c15Call(ic, inList, emptyList, true, admin[0], false, bypass)
+	}
+	c15Call(ic, inList, emptyList, isAdmin, method, streaming, bypass)
+}
+
+// c15Call performs one call through the interceptor and checks it against the policy.
+func c15Call(ic *AccessControlInterceptor, inList map[string]bool, emptyList, isAdmin bool, method string, streaming, bypass bool) {
+	full := api.WorkflowServicePrefix + method
+	if isAdmin {
+		full = api.AdminServicePrefix + method
+	}
 	ctx := c15Ctx(bypass)
 	c16Found, c16VisitErr = nil, nil
 	invoked := 0
 	var err error
-	streaming := verifChoose("kind", 2) == 1
 	if streaming {
 		verifAction("stream")
 		err = ic.StreamIntercept(nil, nil, &grpc.StreamServerInfo{FullMethod: full}, func(srv any, stream grpc.ServerStream) error {
